@@ -1,0 +1,1 @@
+//! Facade for `TalkRequest` in `service.rs`.
